@@ -73,7 +73,8 @@ def start_mc(tier, sc, pool):
     """submit the MC runs; returns futures"""
     jobs = [("MC_TimerHeap_sb1_quick.cfg", 4, 600), ("MC_TimerHeap_sb2_quick.cfg", 4, 600)]
     if tier == "thorough":
-        jobs += [("MC_TimerHeap_sb1_thorough.cfg", 5, 780), ("MC_TimerHeap_sb2_thorough.cfg", 5, 780)]
+        jobs += [("MC_TimerHeap_sb1_thorough.cfg", 5, 780), ("MC_TimerHeap_sb2_thorough.cfg", 3, 780),
+                 ("MC_TimerHeap_sb1_deep.cfg", 3, 780), ("MC_TimerHeap_sb2_deep.cfg", 3, 780)]
     return [pool.submit(_mc_one, cfg, sc, w, to) for cfg, w, to in jobs]
 
 
@@ -308,7 +309,7 @@ def trace_to_script(tf, sid):
 def run_heap(tier, seed, scratch, rep, mc=True):
     t0 = time.time()
     rnd = random.Random("c05heap/%s/%s" % (tier, seed))
-    pool = cf.ThreadPoolExecutor(4)
+    pool = cf.ThreadPoolExecutor(6)
     try:
         mcf = start_mc(tier, scratch, pool) if mc else []
         exe = build("plain")
